@@ -123,6 +123,8 @@ def step (s : St) (line : String) : St × String :=
                (match Lay.leafAt tp vp pp, Lay.updAt tp vp pp x with
                 | some (lo, w), some vp' =>
                   if o + lo != a || w != sc.size then (some s!"PROOF-MODEL-DIFFERS leaf {o + lo} {w}", s.pvals)
+                  else if Lay.getAt tp vp pp != some (MemS.fromLE (MemS.readAt s.buf.mem.toList a sc.size)) then
+                    (some s!"PROOF-MODEL-DIFFERS getAt", s.pvals)
                   else if Drv.LayP.showP t vp'.norm != deep b.mem t o then (some s!"PROOF-MODEL-DIFFERS upd {Drv.LayP.showP t vp'.norm}", s.pvals)
                   else (none, (h, vp') :: s.pvals.filter (·.1 != h))
                 | _, _ => (some "PROOF-MODEL-DIFFERS leaf none", s.pvals))
